@@ -886,11 +886,14 @@ class ExprMixin:
         st.heap[("llen",)] = z3.Store(st.heap[("llen",)], r.t, na + nb)
         arr = self.list_arr(st.heap, Val(V.ListT(et), r.t))
         i = z3.Int("ci")
-        ea = z3.Select(z3.Select(arr, a.t), i)
-        eb = z3.Select(z3.Select(arr, b.t), i - na)
-        er = z3.Select(z3.Select(arr, r.t), i)
-        st.assume(z3.ForAll([i], z3.Implies(z3.And(0 <= i, i < na), er == ea)))
-        st.assume(z3.ForAll([i], z3.Implies(z3.And(na <= i, i < na + nb), er == eb)))
+        ca, cb = V.sel(arr, a.t), V.sel(arr, b.t)
+        new = z3.Const(V.fresh_name("cat_el"), ca.sort())
+        st.heap[("lel", V.sort_key(V.sort_of(et)))] = z3.Store(arr, r.t, new)
+        st.assume(z3.ForAll([i], z3.Implies(z3.And(0 <= i, i < na), z3.Select(new, i) == z3.Select(ca, i)), patterns=[z3.Select(new, i)]))
+        st.assume(z3.ForAll([i], z3.Implies(z3.And(na <= i, i < na + nb), z3.Select(new, i) == z3.Select(cb, i - na)), patterns=[z3.Select(new, i)]))
+        # every element of either operand occurs in the result (instances keyed on the operands' elements)
+        st.assume(z3.ForAll([i], z3.Implies(z3.And(0 <= i, i < na), z3.Select(new, i) == z3.Select(ca, i)), patterns=[z3.Select(ca, i)]))
+        st.assume(z3.ForAll([i], z3.Implies(z3.And(0 <= i, i < nb), z3.Select(new, i + na) == z3.Select(cb, i)), patterns=[z3.Select(cb, i)]))
         return self.val(st, r)
 
     # ------------------------------------------------------------------ subscripts, displays, f-strings
@@ -1096,7 +1099,7 @@ class ExprMixin:
             r = self.allocate(s, rty, "comp")
             n = self.coll_len(s.heap, src)
             m = z3.Int(V.fresh_name("cmp_len"))
-            old = z3.Select(self.list_arr(s.heap, src), src.t)
+            old = V.sel(self.list_arr(s.heap, src), src.t)
             new = z3.Const(V.fresh_name("cmp_el"), z3.ArraySort(z3.IntSort(), V.sort_of(elty)))
             s.heap[("lel", V.sort_key(V.sort_of(elty)))] = z3.Store(self.list_arr(s.heap, Val(rty, r.t)), r.t, new)
             s.heap[("llen",)] = z3.Store(self.heap_get(s.heap, ("llen",), z3.ArraySort(V.Ref, z3.IntSort())), r.t, m)
